@@ -25,8 +25,9 @@ APPLY_FNS = ("FilePatch::<'a, &'a [u8]>::apply", "FilePatch::<'a, &'a [u8]>::app
 
 
 def forward_copies(fn, start):
-    """Locals that hold a plain copy of local `start`."""
+    """Locals that hold a plain copy of local `start` - directly, or carried through a tuple ((a, b) = (.., x); y = pair.1)."""
     s = {start}
+    fields = set()      # (tuple local, index) holding the value
     changed = True
     while changed:
         changed = False
@@ -34,10 +35,26 @@ def forward_copies(fn, start):
             if st["k"] != "assign" or "p" in st["lhs"]:
                 continue
             rv = st["rv"]
-            if rv["k"] == "use" and rv["op"].get("k") in ("copy", "move") and "p" not in rv["op"]["pl"] and rv["op"]["pl"]["l"] in s:
-                if st["lhs"]["l"] not in s:
-                    s.add(st["lhs"]["l"])
+            lhs = st["lhs"]["l"]
+            if rv["k"] == "use" and rv["op"].get("k") in ("copy", "move"):
+                pl = rv["op"]["pl"]
+                ps = pl.get("p", [])
+                if not ps and pl["l"] in s and lhs not in s:
+                    s.add(lhs)
                     changed = True
+                if len(ps) == 1 and isinstance(ps[0], dict) and "f" in ps[0] and (pl["l"], ps[0]["f"]) in fields and lhs not in s:
+                    s.add(lhs)
+                    changed = True
+                if not ps:
+                    for (tl, i) in list(fields):
+                        if tl == pl["l"] and (lhs, i) not in fields:
+                            fields.add((lhs, i))
+                            changed = True
+            elif rv["k"] == "agg" and rv.get("ak") == "tuple":
+                for i, o in enumerate(rv["ops"]):
+                    if o.get("k") in ("copy", "move") and "p" not in o["pl"] and o["pl"]["l"] in s and (lhs, i) not in fields:
+                        fields.add((lhs, i))
+                        changed = True
     return s
 
 
